@@ -93,6 +93,20 @@ def gen_actor(rng, aid, ntrees, others):
                     'path': rng.choice([[0, 1], [1, 0], [0]])})
 
     if rng.chance(0.08):
+        # a change whose statistics carry a custom nested entry, tree-level
+        # statistics generated from scratch, then that entry edited in place
+        tn0 = names[0]
+        ops.append({'op': 'set', 'tree': tn0, 'path': [0], 'attr': 'meta',
+                    'value': {'stats': {'per-author': {'ann': [1, 2]},
+                                        'insertions': 1}}})
+        ops.append({'op': 'set', 'tree': tn0, 'path': [], 'attr': 'meta',
+                    'value': {'title': 't'}})
+        ops.append({'op': 'generate_stats', 'tree': tn0, 'path': []})
+        ops.append({'op': 'meta_nested', 'tree': tn0,
+                    'path': rng.choice([[0], []]), 'prefer': 'stats',
+                    'key': 'zz', 'value': 7})
+
+    if rng.chance(0.08):
         # metadata assigned as an empty dict (zero keys), then edited in
         # place: nobody else's metadata may change with it
         tn0 = names[0]
